@@ -1177,7 +1177,7 @@ def main(tier: str, seed: int, args) -> int:
     us = units(tier, seed)
     if args.units:
         us = us[: args.units]
-    cap = 170 if tier == "quick" else 3300
+    cap = 600 if tier == "quick" else 3300
     stats, viols, errors, done = runner.run_units("sim.c16", us, wall_cap=cap)
     wall = time.time() - t0
     c = stats.c
